@@ -101,6 +101,18 @@ def type_stream(rnd: random.Random, n_random: int):
     for g in (Generator[NoneType, None, None], Generator[NoneType, int, None], Generator[NoneType, None, int],
               Generator[NoneType, NoneType, str], Generator[int, NoneType, None], Generator[int, int, None]):
         out += [g, Optional[g], List[g]]
+    # classes with a common user-defined base next to members that are not plain classes (no common base exists then)
+    for extra in ([List[int]], [Dict[str, int]], [Type[fx.A]], [Callable], [List[int], NoneType], [Tuple[int, str]]):
+        for cls in ([fx.A, fx.B, fx.C, fx.D], [fx.B, fx.C, fx.D], [fx.E, fx.F], [fx.X, fx.Y, fx.XY1, fx.YX1]):
+            ms = list(cls) + list(extra)
+            rnd.shuffle(ms)
+            out.append(Union[tuple(ms)])
+            out.append(Union[tuple(ms + [int, str])])
+    # dict unions with a None member (Optional config dicts)
+    for vs in ([int, str], [int, str, float]):
+        out.append(Union[tuple([Dict[str, v] for v in vs] + [NoneType])])
+        out.append(Union[tuple([NoneType] + [Dict[str, v] for v in vs])])
+        out.append(Optional[Union[tuple(Dict[int, v] for v in vs)]])
     # dict unions for RewriteConfigDict
     for vs in ([int, str], [int, str, NoneType], [List[int], int], [int, Dict[str, int]]):
         out.append(Union[tuple(Dict[str, v] for v in vs)])
